@@ -87,6 +87,9 @@ func c06Body(sc c06Scn) func(x *vs.Exec) {
 			env.Swarm.Notify(n)
 		}
 		env.Note.onConn = func(_ network.Network, c network.Conn) {
+			if s.Free {
+				return
+			}
 			r := find(c)
 			if r == nil {
 				// outbound conns are created inside the transport: bind on first sight
@@ -112,7 +115,8 @@ func c06Body(sc c06Scn) func(x *vs.Exec) {
 		}
 		var handlers []c06Handler
 		env.Swarm.SetStreamHandler(func(st network.Stream) {
-			handlers = append(handlers, c06Handler{conn: st.Conn(), start: vs.Stamp()})
+			h := c06Handler{conn: st.Conn(), start: vs.Stamp()}
+			vs.Locked(func() { handlers = append(handlers, h) })
 			st.Reset()
 		})
 		var closeStart, closeEnd int64
